@@ -443,7 +443,259 @@ fn case<S: ShortGroupSignatureScheme>(v: &Value) -> Value {
             }
             json!({"r":"ok","world":"ok","create":"ok","verify":base,"json_roundtrip":can_roundtrip,"tamper":results,"n_leaves":hexleaves.len()})
         }
+        "ctx" => {
+            let max = v["action"]["max"].as_u64().unwrap_or(1000) as usize;
+            let muts = context_mutations::<S>(&w, &mut rng);
+            let d0 = digest(&w.schema, &w.nonce);
+            let mut out = vec![];
+            for (name, schema2, nonce2) in muts.into_iter().take(max) {
+                let d = digest(&schema2, &nonce2);
+                out.push(json!({"name": name, "verify": verdict(&p, &schema2, &nonce2), "digest_same": d == d0,
+                                "model": json!({"nonce": hx(&nonce2), "schema": schema_model(&schema2)})}));
+            }
+            json!({"r":"ok","world":"ok","create":"ok","verify":base,"orig": json!({"nonce": hx(&w.nonce), "schema": schema_model(&w.schema)}),"ctx":out})
+        }
         _ => json!({"r":"ok","world":"ok","create":"ok","verify":base}),
+    }
+}
+
+/// the transcript digest of (nonce, schema) computed with the library's own public contribution function
+fn digest<S: ShortGroupSignatureScheme>(schema: &PresentationSchema<S>, nonce: &[u8]) -> [u8; 32] {
+    let mut t = merlin::Transcript::new(b"context digest");
+    t.append_message(b"nonce", nonce);
+    schema.add_challenge_contribution(&mut t);
+    let mut d = [0u8; 32];
+    t.challenge_bytes(b"d", &mut d);
+    d
+}
+
+fn hb<T: AsRef<[u8]>>(b: T) -> Value {
+    json!(hx(b.as_ref()))
+}
+
+/// Rust schema -> model input (the fields the model's transcript encoding takes), bytes as hex
+fn schema_model<S: ShortGroupSignatureScheme>(schema: &PresentationSchema<S>) -> Value {
+    use credx::knox::short_group_sig_core::short_group_traits::PublicKey as _;
+    let mut stmts = vec![];
+    for (k, st) in schema.statements.iter() {
+        let m = match st {
+            Statements::Signature(s) => {
+                let cs = &s.issuer.schema;
+                json!({"k":"sig","id":hb(&s.id),"disclosed": s.disclosed.iter().map(hb).collect::<Vec<_>>(),
+                       "issuer": {"id":hb(&s.issuer.id),"vk":hb(s.issuer.verifying_key.to_bytes()),"rvk":hb(s.issuer.revocation_verifying_key.to_bytes()),
+                                  "reg":hb(s.issuer.revocation_registry.to_bytes()),"ek":hb(s.issuer.verifiable_encryption_key.0.to_compressed()),
+                                  "schema":{"id":hb(&cs.id),"label":hb(cs.label.clone().unwrap_or_default()),"desc":hb(cs.description.clone().unwrap_or_default()),
+                                            "blind": cs.blind_claims.iter().map(hb).collect::<Vec<_>>(),"indices": cs.claim_indices.iter().map(hb).collect::<Vec<_>>(),
+                                            "nclaims": cs.claims.len()}}})
+            }
+            Statements::Revocation(s) => json!({"k":"rev","id":hb(&s.id),"ref":hb(&s.reference_id),"claim":s.claim,"vk":hb(s.verification_key.to_bytes()),"acc":hb(s.accumulator.to_bytes())}),
+            Statements::Membership(s) => json!({"k":"mem","id":hb(&s.id),"ref":hb(&s.reference_id),"claim":s.claim,"vk":hb(s.verification_key.to_bytes()),"acc":hb(s.accumulator.to_bytes())}),
+            Statements::Equality(s) => json!({"k":"eq","id":hb(&s.id),"refs": s.ref_id_claim_index.iter().map(|(i,c)| json!([hb(i), c])).collect::<Vec<_>>()}),
+            Statements::Commitment(s) => json!({"k":"comm","id":hb(&s.id),"ref":hb(&s.reference_id),"claim":s.claim,"gm":hb(s.message_generator.to_compressed()),"gb":hb(s.blinder_generator.to_compressed())}),
+            Statements::Range(s) => json!({"k":"range","id":hb(&s.id),"ref":hb(&s.reference_id),"sig":hb(&s.signature_id),"claim":s.claim,
+                                           "lo": s.lower.map(|x| x.to_string()),"hi": s.upper.map(|x| x.to_string())}),
+            Statements::VerifiableEncryption(s) => json!({"k":"venc","id":hb(&s.id),"dec":s.allow_message_decryption,"ref":hb(&s.reference_id),"claim":s.claim,
+                                                          "gm":hb(s.message_generator.to_compressed()),"ek":hb(s.encryption_key.0.to_compressed())}),
+            Statements::VerifiableEncryptionDecryption(s) => json!({"k":"vdec","id":hb(&s.id),"ref":hb(&s.reference_id),"claim":s.claim,
+                                                          "gm":hb(s.message_generator.to_compressed()),"ek":hb(s.encryption_key.0.to_compressed())}),
+        };
+        stmts.push(json!([hb(k), m]));
+    }
+    json!({"id": hb(&schema.id), "stmts": stmts})
+}
+
+/// every single change of a verifier-side parameter
+fn context_mutations<S: ShortGroupSignatureScheme>(w: &World<S>, rng: &mut ChaCha20Rng) -> Vec<(String, PresentationSchema<S>, Vec<u8>)> {
+    let mut out: Vec<(String, PresentationSchema<S>, Vec<u8>)> = vec![];
+    let sid = w.schema.id.clone();
+    let same = |st: &Vec<Statements<S>>| PresentationSchema::new_with_id(st, &sid);
+    // nonce
+    let mut n = w.nonce.clone();
+    if !n.is_empty() {
+        let k = rng.gen_range(0..n.len());
+        n[k] ^= 1 << rng.gen_range(0..8);
+        out.push(("nonce-bitflip".into(), same(&w.statements), n));
+        out.push(("nonce-truncate".into(), same(&w.statements), w.nonce[..w.nonce.len() - 1].to_vec()));
+    }
+    let mut n = w.nonce.clone();
+    n.push(0);
+    out.push(("nonce-extend".into(), same(&w.statements), n));
+    out.push(("schema-id".into(), PresentationSchema::new_with_id(&w.statements, &format!("{sid}x")), w.nonce.clone()));
+    // statement order and count
+    if w.statements.len() >= 2 {
+        let mut st = w.statements.clone();
+        st.swap(0, 1);
+        out.push(("statement-order-swap-0-1".into(), same(&st), w.nonce.clone()));
+    }
+    let other_g1 = G1Projective::GENERATOR * Scalar::from(rng.gen::<u64>() | 1);
+    let (other_ipub, _) = Issuer::<S>::new(&w.issuers[0].0.schema);
+    let other_acc_sk = vb20::SecretKey::new(None);
+    let other_acc_pk = vb20::PublicKey::from(&other_acc_sk);
+    for (i, st) in w.statements.iter().enumerate() {
+        let mut push = |name: &str, ns: Statements<S>| {
+            let mut v = w.statements.clone();
+            v[i] = ns;
+            out.push((format!("{}[{}]:{}", kind_name(st), i, name), same(&v), w.nonce.clone()));
+        };
+        match st {
+            Statements::Signature(s) => {
+                let mut t = (**s).clone();
+                t.issuer.id = format!("{}x", t.issuer.id);
+                push("issuer.id", t.into());
+                let mut t = (**s).clone();
+                t.issuer.verifying_key = other_ipub.verifying_key.clone();
+                push("issuer.verifying_key", t.into());
+                let mut t = (**s).clone();
+                t.issuer.revocation_verifying_key = other_ipub.revocation_verifying_key;
+                push("issuer.revocation_verifying_key", t.into());
+                let mut t = (**s).clone();
+                t.issuer.revocation_registry = other_ipub.revocation_registry;
+                push("issuer.revocation_registry", t.into());
+                let mut t = (**s).clone();
+                t.issuer.verifiable_encryption_key = other_ipub.verifiable_encryption_key;
+                push("issuer.verifiable_encryption_key", t.into());
+                let mut t = (**s).clone();
+                t.issuer.schema.id = format!("{}x", t.issuer.schema.id);
+                push("issuer.schema.id", t.into());
+                let mut t = (**s).clone();
+                t.issuer.schema.label = Some("other label".into());
+                push("issuer.schema.label", t.into());
+                let mut t = (**s).clone();
+                t.issuer.schema.description = Some("other description".into());
+                push("issuer.schema.description", t.into());
+                let mut t = (**s).clone();
+                let l0 = t.issuer.schema.claim_indices.get_index(t.issuer.schema.claim_indices.len() - 1).unwrap().clone();
+                t.issuer.schema.blind_claims.insert(l0);
+                push("issuer.schema.blind_claims+1", t.into());
+                // rename a claim label to another label of the SAME length, consistently in claims and claim_indices
+                let mut t = (**s).clone();
+                let hidden_idx = (0..t.issuer.schema.claims.len()).rev().find(|i| !t.disclosed.contains(&t.issuer.schema.claims[*i].label));
+                if let Some(hi) = hidden_idx {
+                    let old = t.issuer.schema.claims[hi].label.clone();
+                    let mut newl: String = old.chars().rev().collect();
+                    if newl == old {
+                        newl = old.replace(|c: char| c.is_ascii_alphabetic(), "q");
+                    }
+                    if newl != old && newl.len() == old.len() && !t.issuer.schema.claim_indices.contains(&newl) {
+                        t.issuer.schema.claims[hi].label = newl.clone();
+                        let labels: Vec<String> = t.issuer.schema.claim_indices.iter().map(|l| if *l == old { newl.clone() } else { l.clone() }).collect();
+                        t.issuer.schema.claim_indices = labels.into_iter().collect();
+                        push("issuer.schema.claim-label-rename-same-length", t.into());
+                    }
+                }
+                let mut t = (**s).clone();
+                let extra = t.issuer.schema.claims[0].clone();
+                t.issuer.schema.claims.push(extra);
+                push("issuer.schema.claims.len+1", t.into());
+                // requested disclosures: add a hidden, non-referenced label / remove a disclosed one
+                let mut t = (**s).clone();
+                if let Some(l) = t.disclosed.iter().next().cloned() {
+                    t.disclosed.remove(&l);
+                    push("disclosed-remove", t.into());
+                }
+                let mut t = (**s).clone();
+                t.disclosed.insert("not-a-label".into());
+                push("disclosed-add-unknown-label", t.into());
+            }
+            Statements::Revocation(s) => {
+                let mut t = (**s).clone();
+                t.verification_key = other_acc_pk;
+                push("verification_key", t.into());
+                let mut t = (**s).clone();
+                t.accumulator = vb20::Accumulator(other_g1);
+                push("accumulator", t.into());
+                let mut t = (**s).clone();
+                t.claim += 1;
+                push("claim+1", t.into());
+            }
+            Statements::Membership(s) => {
+                let mut t = (**s).clone();
+                t.verification_key = other_acc_pk;
+                push("verification_key", t.into());
+                let mut t = (**s).clone();
+                t.accumulator = vb20::Accumulator(other_g1);
+                push("accumulator", t.into());
+                let mut t = (**s).clone();
+                t.claim = if t.claim > 1 { t.claim - 1 } else { t.claim + 1 };
+                push("claim+-1", t.into());
+            }
+            Statements::Equality(s) => {
+                let mut t = (**s).clone();
+                if let Some((k, c)) = t.ref_id_claim_index.iter().next().map(|(k, c)| (k.clone(), *c)) {
+                    t.ref_id_claim_index.insert(k, c + 1);
+                    push("first-ref-claim+1", t.into());
+                }
+                let mut t = (**s).clone();
+                let keys: Vec<String> = t.ref_id_claim_index.keys().cloned().collect();
+                if keys.len() >= 2 {
+                    t.ref_id_claim_index.swap_indices(0, 1);
+                    push("refs-reordered", t.into());
+                }
+            }
+            Statements::Commitment(s) => {
+                let mut t = (**s).clone();
+                t.message_generator = other_g1;
+                push("message_generator", t.into());
+                let mut t = (**s).clone();
+                t.blinder_generator = other_g1;
+                push("blinder_generator", t.into());
+                let mut t = (**s).clone();
+                t.claim = if t.claim > 1 { t.claim - 1 } else { t.claim + 1 };
+                push("claim+-1", t.into());
+            }
+            Statements::Range(s) => {
+                let mut t = (**s).clone();
+                t.lower = match t.lower { Some(l) => Some(l.wrapping_sub(1)), None => Some(isize::MIN) };
+                push("lower-changed-or-added", t.into());
+                let mut t = (**s).clone();
+                t.upper = match t.upper { Some(u) => Some(u.wrapping_add(1)), None => Some(isize::MAX) };
+                push("upper-changed-or-added", t.into());
+                if s.lower.is_some() && s.upper.is_some() {
+                    let mut t = (**s).clone();
+                    t.lower = None;
+                    push("lower-removed", t.into());
+                    let mut t = (**s).clone();
+                    t.upper = None;
+                    push("upper-removed", t.into());
+                }
+            }
+            Statements::VerifiableEncryption(s) => {
+                let mut t = (**s).clone();
+                t.allow_message_decryption = !t.allow_message_decryption;
+                push("allow_message_decryption", t.into());
+                let mut t = (**s).clone();
+                t.message_generator = other_g1;
+                push("message_generator", t.into());
+                let mut t = (**s).clone();
+                t.encryption_key = other_ipub.verifiable_encryption_key;
+                push("encryption_key", t.into());
+                let mut t = (**s).clone();
+                t.claim = if t.claim > 1 { t.claim - 1 } else { t.claim + 1 };
+                push("claim+-1", t.into());
+            }
+            Statements::VerifiableEncryptionDecryption(s) => {
+                let mut t = (**s).clone();
+                t.message_generator = other_g1;
+                push("message_generator", t.into());
+                let mut t = (**s).clone();
+                t.encryption_key = other_ipub.verifiable_encryption_key;
+                push("encryption_key", t.into());
+            }
+        }
+    }
+    out
+}
+
+fn kind_name<S: ShortGroupSignatureScheme>(s: &Statements<S>) -> &'static str {
+    match s {
+        Statements::Signature(_) => "sig",
+        Statements::Revocation(_) => "rev",
+        Statements::Membership(_) => "mem",
+        Statements::Equality(_) => "eq",
+        Statements::Commitment(_) => "comm",
+        Statements::Range(_) => "range",
+        Statements::VerifiableEncryption(_) => "venc",
+        Statements::VerifiableEncryptionDecryption(_) => "vdec",
     }
 }
 
